@@ -568,6 +568,9 @@ def _getitem_core(ctx: Ctx, a: Arr, keys, checked=()):
     if not fancy_pos:
         res.base = orig
         orig.has_views = True
+    if a.ndim == 1 and len(plans) == 1 and plans[0][0] == "slice" and plans[0][2] == 1:
+        # contiguous piece of a vector: remembered so that its sum can be stated through the vector's prefix sums
+        res.slice_of = (orig, orig.version, plans[0][1])
     # row bookkeeping: the last axis is kept whole => rows are rows of the source
     rf = getattr(a, "rowfn", None)
     last = plans[-1] if plans else None
@@ -647,6 +650,7 @@ def select_true(ctx: Ctx, m: Arr):
     )
     m.ghost[key] = (K, sel, rk)
     ctx.log_ghost("select", (K, sel, rk))
+    ctx.log_ghost("select@src", dict(mask=m, K=K, sel=sel, rk=rk))
     return m.ghost[key]
 
 
@@ -1047,30 +1051,46 @@ def np_sum(ctx: Ctx, a, axis=None):
             )
             return Arr((other,), lambda jj: cnt(T.tz(jj)), "int")
     if axis is None and a.ndim == 1 and a.dtype == "int" and getattr(ctx, "prefix_sums", False):
-        # opt-in per contract: the sum of an integer sequence as the value of its prefix-sum function, which is DEFINED
-        # by ps(0) = 0, ps(k + 1) = ps(k) + a[k] (a specification-level definition, not an assumption about NumPy)
-        a_s = snap(a)
-        n = a_s.shape[0]
-        ps = T.fresh_fun("psum", I, I)
-        k = T.fresh_int("k")
-        ctx.assume(ps(0) == 0)
-        ctx.assume(T.ForAll([k], z3.Implies(z3.And(0 <= k, T.lt(k, n)), ps(k + 1) == ps(k) + T.tz(a_s.fn(k))), [ps(k + 1)]))
-        # lemma L9 (by induction on k, assumed): prefix sums of non-negative numbers are non-negative and monotone.
-        # Skolemised: either some entry is negative, or the two facts hold
-        w, j = T.fresh_int("wneg"), T.fresh_int("j")
-        ctx.assume(
-            z3.Or(z3.And(0 <= w, T.lt(w, n), T.tz(a_s.fn(w)) < 0),
-                  z3.And(T.ForAll([k], z3.Implies(z3.And(0 <= k, T.le(k, n)), ps(k) >= 0), [ps(k)]),
-                         T.ForAll([j, k], z3.Implies(z3.And(0 <= j, j <= k, T.le(k, n)), ps(j) <= ps(k)), [[ps(j), ps(k)]]))),
-            trusted="lemma:L9 prefix sums of non-negative integers are non-negative and monotone (induction, assumed)")
-        ctx.log_ghost("sum", dict(ps=ps, src=a_s, n=n))
-        return ps(T.tz(n))
+        so = getattr(a, "slice_of", None)
+        if so is not None and so[0].version == so[1] and so[0].dtype == "int":
+            # sum of the piece [start, start + len) of a vector = difference of that vector's prefix sums (telescoping)
+            ps = prefix_sum_fn(ctx, so[0])
+            ctx.trusted.add("lemma: the sum of a contiguous piece of a sequence is the difference of two of its prefix sums (telescoping)")
+            return ps(T.tz(T.add(so[2], a.shape[0]))) - ps(T.tz(so[2]))
+        return prefix_sum_fn(ctx, a)(T.tz(a.shape[0]))
     # general sums are outside the linear fragment: the value is left unconstrained
     ctx.dropped.add("np.sum over numeric values: result unconstrained (havoc)")
     if axis is None:
         return z3.Const(T.fresh_name("sum"), z3sort("real" if a.dtype != "int" else "int"))
     shape = a.shape[:axis] + a.shape[axis + 1 :]
     return Arr.fresh("sum", shape, a.dtype if a.dtype != "bool" else "int")
+
+
+def prefix_sum_fn(ctx: Ctx, a: Arr):
+    """Opt-in per contract: the prefix-sum function of an integer sequence, DEFINED by ps(0) = 0, ps(k + 1) = ps(k) + a[k]
+    (a specification-level definition, not an assumption about NumPy); one function per array value."""
+    while getattr(a, "value_of", None) is not None and a.version == 0 and a.value_of[0].version == a.value_of[1]:
+        a = a.value_of[0]  # tuple(x) / list(x) of an unchanged sequence: the same values, the same function
+    key = ("psum", a.version)
+    if key in a.ghost:
+        return a.ghost[key]
+    a_s = snap(a)
+    n = a_s.shape[0]
+    ps = T.fresh_fun("psum", I, I)
+    k = T.fresh_int("k")
+    ctx.assume(ps(0) == 0)
+    ctx.assume(T.ForAll([k], z3.Implies(z3.And(0 <= k, T.lt(k, n)), ps(k + 1) == ps(k) + T.tz(a_s.fn(k))), [ps(k + 1)]))
+    # lemma L9 (by induction on k, assumed): prefix sums of non-negative numbers are non-negative and monotone.
+    # Skolemised: either some entry is negative, or the two facts hold
+    w, j = T.fresh_int("wneg"), T.fresh_int("j")
+    ctx.assume(
+        z3.Or(z3.And(0 <= w, T.lt(w, n), T.tz(a_s.fn(w)) < 0),
+              z3.And(T.ForAll([k], z3.Implies(z3.And(0 <= k, T.le(k, n)), ps(k) >= 0), [ps(k)]),
+                     T.ForAll([j, k], z3.Implies(z3.And(0 <= j, j <= k, T.le(k, n)), ps(j) <= ps(k)), [[ps(j), ps(k)]]))),
+        trusted="lemma:L9 prefix sums of non-negative integers are non-negative and monotone (induction, assumed)")
+    ctx.log_ghost("sum", dict(ps=ps, src=a_s, n=n))
+    a.ghost[key] = ps
+    return ps
 
 
 # ------------------------------------------------------------------ shape ops
